@@ -516,12 +516,16 @@ Require Verif.Tie.Parse.AlpmRange.
 Require Verif.Tie.Parse.Apache.
 Require Verif.Tie.Parse.ApacheRange.
 Require Verif.Tie.Parse.Cargo.
+Require Verif.Tie.Parse.CargoRange.
+Require Verif.Tie.Parse.ComposerRange.
 Require Verif.Tie.Parse.Conan.
+Require Verif.Tie.Parse.ConanRange.
 Require Verif.Tie.Parse.CranRange.
 Require Verif.Tie.Parse.Debian.
 Require Verif.Tie.Parse.DebianRange.
 Require Verif.Tie.Parse.DebianRangeClosed.
 Require Verif.Tie.Parse.Gem.
+Require Verif.Tie.Parse.GemRange.
 Require Verif.Tie.Parse.Gentoo.
 Require Verif.Tie.Parse.GentooRange.
 Require Verif.Tie.Parse.GentooRangeClosed.
@@ -533,14 +537,23 @@ Require Verif.Tie.Parse.HexRange.
 Require Verif.Tie.Parse.Mattermost.
 Require Verif.Tie.Parse.MattermostRange.
 Require Verif.Tie.Parse.Maven.
+Require Verif.Tie.Parse.MavenRange.
 Require Verif.Tie.Parse.Npm.
 Require Verif.Tie.Parse.NpmRangeClosed.
 Require Verif.Tie.Parse.Nuget.
 Require Verif.Tie.Parse.NugetRangeClosed.
+Require Verif.Tie.Parse.PypiRange.
 Require Verif.Tie.Parse.Rpm.
 Require Verif.Tie.Parse.RpmRange.
 Require Verif.Tie.Parse.RpmRangeClosed.
 Require Verif.Tie.Parse.Semver.
+Require Verif.Tie.Parse.SemverRange.
+Require Verif.Tie.Vers.Code.
+Require Verif.Tie.Vers.Constraints.
+Require Verif.Tie.Vers.Printers.
+Require Verif.Tie.Vers.Pypi.
+Require Verif.Tie.Vers.Texts.
+Require Verif.Tie.Vers.Valid.
 Definition C06_tie_loops_alpine_hasLeadingZero_no_panic := Verif.Tie.Loops.Alpine.loops_alpine_hasLeadingZero_no_panic.
 Print Assumptions C06_tie_loops_alpine_hasLeadingZero_no_panic.
 Definition C06_tie_loops_alpine_compareNumericArraysNumeric_no_panic := Verif.Tie.Loops.Alpine.loops_alpine_compareNumericArraysNumeric_no_panic.
@@ -625,6 +638,24 @@ Definition C06_tie_newversion_cargo_no_panic := Verif.Tie.Parse.Cargo.newversion
 Print Assumptions C06_tie_newversion_cargo_no_panic.
 Definition C06_tie_parse_cargo_newversion := Verif.Tie.Parse.Cargo.tie_parse_cargo_newversion.
 Print Assumptions C06_tie_parse_cargo_newversion.
+Definition C06_tie_parse_cargo_parseConstraint := Verif.Tie.Parse.CargoRange.tie_parse_cargo_parseConstraint.
+Print Assumptions C06_tie_parse_cargo_parseConstraint.
+Definition C06_tie_parse_cargo_parseConstraints := Verif.Tie.Parse.CargoRange.tie_parse_cargo_parseConstraints.
+Print Assumptions C06_tie_parse_cargo_parseConstraints.
+Definition C06_tie_parse_cargo_newversionrange_nv := Verif.Tie.Parse.CargoRange.tie_parse_cargo_newversionrange_nv.
+Print Assumptions C06_tie_parse_cargo_newversionrange_nv.
+Definition C06_tie_parse_cargo_newversionrange := Verif.Tie.Parse.CargoRange.tie_parse_cargo_newversionrange.
+Print Assumptions C06_tie_parse_cargo_newversionrange.
+Definition C06_tie_parse_composer_parseHyphenRange := Verif.Tie.Parse.ComposerRange.tie_parse_composer_parseHyphenRange.
+Print Assumptions C06_tie_parse_composer_parseHyphenRange.
+Definition C06_tie_parse_composer_space := Verif.Tie.Parse.ComposerRange.tie_parse_composer_space.
+Print Assumptions C06_tie_parse_composer_space.
+Definition C06_tie_parse_composer_parseRange := Verif.Tie.Parse.ComposerRange.tie_parse_composer_parseRange.
+Print Assumptions C06_tie_parse_composer_parseRange.
+Definition C06_tie_parse_composer_parseRangeGroups := Verif.Tie.Parse.ComposerRange.tie_parse_composer_parseRangeGroups.
+Print Assumptions C06_tie_parse_composer_parseRangeGroups.
+Definition C06_tie_parse_composer_newversionrange := Verif.Tie.Parse.ComposerRange.tie_parse_composer_newversionrange.
+Print Assumptions C06_tie_parse_composer_newversionrange.
 Definition C06_tie_newversion_conan_no_panic := Verif.Tie.Parse.Conan.newversion_conan_no_panic.
 Print Assumptions C06_tie_newversion_conan_no_panic.
 Definition C06_tie_newversion_matched := Verif.Tie.Parse.Conan.newversion_matched.
@@ -633,6 +664,8 @@ Definition C06_tie_newversion_unmatched := Verif.Tie.Parse.Conan.newversion_unma
 Print Assumptions C06_tie_newversion_unmatched.
 Definition C06_tie_parse_conan_newversion := Verif.Tie.Parse.Conan.tie_parse_conan_newversion.
 Print Assumptions C06_tie_parse_conan_newversion.
+Definition C06_tie_parse_conan_newversionrange := Verif.Tie.Parse.ConanRange.tie_parse_conan_newversionrange.
+Print Assumptions C06_tie_parse_conan_newversionrange.
 Definition C06_tie_parse_cran_parseConstraint := Verif.Tie.Parse.CranRange.tie_parse_cran_parseConstraint.
 Print Assumptions C06_tie_parse_cran_parseConstraint.
 Definition C06_tie_parse_cran_parseConstraints := Verif.Tie.Parse.CranRange.tie_parse_cran_parseConstraints.
@@ -659,6 +692,14 @@ Definition C06_tie_parse_gem_parseSegments := Verif.Tie.Parse.Gem.tie_parse_gem_
 Print Assumptions C06_tie_parse_gem_parseSegments.
 Definition C06_tie_parse_gem_newversion := Verif.Tie.Parse.Gem.tie_parse_gem_newversion.
 Print Assumptions C06_tie_parse_gem_newversion.
+Definition C06_tie_parse_gem_parseConstraint := Verif.Tie.Parse.GemRange.tie_parse_gem_parseConstraint.
+Print Assumptions C06_tie_parse_gem_parseConstraint.
+Definition C06_tie_parse_gem_parseConstraints := Verif.Tie.Parse.GemRange.tie_parse_gem_parseConstraints.
+Print Assumptions C06_tie_parse_gem_parseConstraints.
+Definition C06_tie_parse_gem_newversionrange_core := Verif.Tie.Parse.GemRange.tie_parse_gem_newversionrange_core.
+Print Assumptions C06_tie_parse_gem_newversionrange_core.
+Definition C06_tie_parse_gem_newversionrange := Verif.Tie.Parse.GemRange.tie_parse_gem_newversionrange.
+Print Assumptions C06_tie_parse_gem_newversionrange.
 Definition C06_tie_newversion_gentoo_no_panic := Verif.Tie.Parse.Gentoo.newversion_gentoo_no_panic.
 Print Assumptions C06_tie_newversion_gentoo_no_panic.
 Definition C06_tie_parse_gentoo_newversion := Verif.Tie.Parse.Gentoo.tie_parse_gentoo_newversion.
@@ -713,6 +754,8 @@ Definition C06_tie_parse_maven_isValidMavenVersion := Verif.Tie.Parse.Maven.tie_
 Print Assumptions C06_tie_parse_maven_isValidMavenVersion.
 Definition C06_tie_parse_maven_newversion := Verif.Tie.Parse.Maven.tie_parse_maven_newversion.
 Print Assumptions C06_tie_parse_maven_newversion.
+Definition C06_tie_parse_maven_newversionrange := Verif.Tie.Parse.MavenRange.tie_parse_maven_newversionrange.
+Print Assumptions C06_tie_parse_maven_newversionrange.
 Definition C06_tie_newversion_npm_no_panic := Verif.Tie.Parse.Npm.newversion_npm_no_panic.
 Print Assumptions C06_tie_newversion_npm_no_panic.
 Definition C06_tie_parse_npm_newversion := Verif.Tie.Parse.Npm.tie_parse_npm_newversion.
@@ -725,6 +768,10 @@ Definition C06_tie_parse_nuget_newversion := Verif.Tie.Parse.Nuget.tie_parse_nug
 Print Assumptions C06_tie_parse_nuget_newversion.
 Definition C06_tie_newversionrange_nuget_no_panic_closed := Verif.Tie.Parse.NugetRangeClosed.newversionrange_nuget_no_panic_closed.
 Print Assumptions C06_tie_newversionrange_nuget_no_panic_closed.
+Definition C06_tie_parse_pypi_parseSingleConstraint := Verif.Tie.Parse.PypiRange.tie_parse_pypi_parseSingleConstraint.
+Print Assumptions C06_tie_parse_pypi_parseSingleConstraint.
+Definition C06_tie_parse_pypi_newversionrange := Verif.Tie.Parse.PypiRange.tie_parse_pypi_newversionrange.
+Print Assumptions C06_tie_parse_pypi_newversionrange.
 Definition C06_tie_newversion_rpm_no_panic := Verif.Tie.Parse.Rpm.newversion_rpm_no_panic.
 Print Assumptions C06_tie_newversion_rpm_no_panic.
 Definition C06_tie_parse_rpm_newversion := Verif.Tie.Parse.Rpm.tie_parse_rpm_newversion.
@@ -743,4 +790,72 @@ Definition C06_tie_newversion_semver_no_panic := Verif.Tie.Parse.Semver.newversi
 Print Assumptions C06_tie_newversion_semver_no_panic.
 Definition C06_tie_parse_semver_newversion := Verif.Tie.Parse.Semver.tie_parse_semver_newversion.
 Print Assumptions C06_tie_parse_semver_newversion.
+Definition C06_tie_parse_semver_comma := Verif.Tie.Parse.SemverRange.tie_parse_semver_comma.
+Print Assumptions C06_tie_parse_semver_comma.
+Definition C06_tie_parse_semver_space := Verif.Tie.Parse.SemverRange.tie_parse_semver_space.
+Print Assumptions C06_tie_parse_semver_space.
+Definition C06_tie_parse_semver_newversionrange := Verif.Tie.Parse.SemverRange.tie_parse_semver_newversionrange.
+Print Assumptions C06_tie_parse_semver_newversionrange.
+Definition C06_tie_shouldMergeConstraints_tie := Verif.Tie.Vers.Code.shouldMergeConstraints_tie.
+Print Assumptions C06_tie_shouldMergeConstraints_tie.
+Definition C06_tie_ensureVPrefix_tie := Verif.Tie.Vers.Code.ensureVPrefix_tie.
+Print Assumptions C06_tie_ensureVPrefix_tie.
+Definition C06_tie_parseConstraint_tie := Verif.Tie.Vers.Constraints.parseConstraint_tie.
+Print Assumptions C06_tie_parseConstraint_tie.
+Definition C06_tie_parseConstraint_finished := Verif.Tie.Vers.Constraints.parseConstraint_finished.
+Print Assumptions C06_tie_parseConstraint_finished.
+Definition C06_tie_parseConstraints_tie := Verif.Tie.Vers.Constraints.parseConstraints_tie.
+Print Assumptions C06_tie_parseConstraints_tie.
+Definition C06_tie_parseConstraints_finished := Verif.Tie.Vers.Constraints.parseConstraints_finished.
+Print Assumptions C06_tie_parseConstraints_finished.
+Definition C06_tie_parseConstraints_normalize := Verif.Tie.Vers.Constraints.parseConstraints_normalize.
+Print Assumptions C06_tie_parseConstraints_normalize.
+Definition C06_tie_alpine_printer_tie := Verif.Tie.Vers.Printers.alpine_printer_tie.
+Print Assumptions C06_tie_alpine_printer_tie.
+Definition C06_tie_cargo_printer_tie := Verif.Tie.Vers.Printers.cargo_printer_tie.
+Print Assumptions C06_tie_cargo_printer_tie.
+Definition C06_tie_debian_printer_tie := Verif.Tie.Vers.Printers.debian_printer_tie.
+Print Assumptions C06_tie_debian_printer_tie.
+Definition C06_tie_gem_printer_tie := Verif.Tie.Vers.Printers.gem_printer_tie.
+Print Assumptions C06_tie_gem_printer_tie.
+Definition C06_tie_golang_printer_tie := Verif.Tie.Vers.Printers.golang_printer_tie.
+Print Assumptions C06_tie_golang_printer_tie.
+Definition C06_tie_maven_printer_tie := Verif.Tie.Vers.Printers.maven_printer_tie.
+Print Assumptions C06_tie_maven_printer_tie.
+Definition C06_tie_npm_printer_tie := Verif.Tie.Vers.Printers.npm_printer_tie.
+Print Assumptions C06_tie_npm_printer_tie.
+Definition C06_tie_nuget_printer_tie := Verif.Tie.Vers.Printers.nuget_printer_tie.
+Print Assumptions C06_tie_nuget_printer_tie.
+Definition C06_tie_pypi_printer_tie := Verif.Tie.Vers.Printers.pypi_printer_tie.
+Print Assumptions C06_tie_pypi_printer_tie.
+Definition C06_tie_rpm_printer_tie := Verif.Tie.Vers.Printers.rpm_printer_tie.
+Print Assumptions C06_tie_rpm_printer_tie.
+Definition C06_tie_semver_printer_tie := Verif.Tie.Vers.Printers.semver_printer_tie.
+Print Assumptions C06_tie_semver_printer_tie.
+Definition C06_tie_printers_keys := Verif.Tie.Vers.Printers.printers_keys.
+Print Assumptions C06_tie_printers_keys.
+Definition C06_tie_printers_match_style_table := Verif.Tie.Vers.Printers.printers_match_style_table.
+Print Assumptions C06_tie_printers_match_style_table.
+Definition C06_tie_printers_on_model_interval := Verif.Tie.Vers.Printers.printers_on_model_interval.
+Print Assumptions C06_tie_printers_on_model_interval.
+Definition C06_tie_containsPrereleaseMarkers_tie := Verif.Tie.Vers.Pypi.containsPrereleaseMarkers_tie.
+Print Assumptions C06_tie_containsPrereleaseMarkers_tie.
+Definition C06_tie_containsPrereleaseMarkers_finished := Verif.Tie.Vers.Pypi.containsPrereleaseMarkers_finished.
+Print Assumptions C06_tie_containsPrereleaseMarkers_finished.
+Definition C06_tie_constraintsIncludePrerelease_finished := Verif.Tie.Vers.Pypi.constraintsIncludePrerelease_finished.
+Print Assumptions C06_tie_constraintsIncludePrerelease_finished.
+Definition C06_tie_constraintsIncludePrerelease_tie := Verif.Tie.Vers.Pypi.constraintsIncludePrerelease_tie.
+Print Assumptions C06_tie_constraintsIncludePrerelease_tie.
+Definition C06_tie_printers_texts := Verif.Tie.Vers.Texts.printers_texts.
+Print Assumptions C06_tie_printers_texts.
+Definition C06_tie_printers_texts_normalize := Verif.Tie.Vers.Texts.printers_texts_normalize.
+Print Assumptions C06_tie_printers_texts_normalize.
+Definition C06_tie_valid_tie := Verif.Tie.Vers.Valid.valid_tie.
+Print Assumptions C06_tie_valid_tie.
+Definition C06_tie_valid_finished := Verif.Tie.Vers.Valid.valid_finished.
+Print Assumptions C06_tie_valid_finished.
+Definition C06_tie_scheme_tie := Verif.Tie.Vers.Valid.scheme_tie.
+Print Assumptions C06_tie_scheme_tie.
+Definition C06_tie_scheme_finished := Verif.Tie.Vers.Valid.scheme_finished.
+Print Assumptions C06_tie_scheme_finished.
 (* ====== ties to the source: END ====== *)
